@@ -10,7 +10,9 @@ import (
 // verifSig returns a small family of I/O signatures: plain, compound
 // (struct with members, empty names), array typed.
 func verifSig(k int) (IO, IO) {
-	u := func(bits int) types.Info { return types.Info{Type: types.TUint, IsConcrete: true, Bits: types.Size(bits)} }
+	u := func(bits int) types.Info {
+		return types.Info{Type: types.TUint, IsConcrete: true, Bits: types.Size(bits)}
+	}
 	switch k {
 	case 0:
 		return IO{{Name: "a", Type: u(1)}, {Name: "b", Type: u(1)}}, IO{{Name: "r", Type: u(1)}}
@@ -18,6 +20,18 @@ func verifSig(k int) (IO, IO) {
 		el := u(1)
 		arr := types.Info{Type: types.TArray, IsConcrete: true, Bits: 2, ArraySize: 2, ElementType: &el}
 		return IO{{Name: "", Type: arr}}, IO{{Name: "", Type: types.Info{Type: types.TBool, IsConcrete: true, Bits: 1}}}
+	case 3:
+		// slice-typed arguments as the compiler emits them for main(a, b []T): the type string
+		// "[]uint1" carries no size, the size field does (2 input wires in all, as in the other shapes)
+		el := u(1)
+		sl := types.Info{Type: types.TSlice, IsConcrete: true, Bits: 1, ArraySize: 1, ElementType: &el}
+		return IO{{Name: "a", Type: sl}, {Name: "b", Type: sl}}, IO{{Name: "r", Type: sl}}
+	case 4:
+		el := u(1)
+		sl := types.Info{Type: types.TSlice, IsConcrete: true, Bits: 1, ArraySize: 1, ElementType: &el}
+		st := types.Info{Type: types.TStruct, IsConcrete: true, Bits: 2}
+		comp := IO{{Name: "s", Type: sl}, {Name: "f", Type: u(1)}}
+		return IO{{Name: "g", Type: st, Compound: comp}}, IO{{Name: "o", Type: u(1)}}
 	default:
 		st := types.Info{Type: types.TStruct, IsConcrete: true, Bits: 2}
 		comp := IO{{Name: "x", Type: u(1)}, {Name: "", Type: types.Info{Type: types.TInt, IsConcrete: true, Bits: 1}}}
@@ -29,7 +43,7 @@ func verifSig(k int) (IO, IO) {
 // with 2 input wires and up to 3 gates with arbitrary gate types and
 // arbitrary well-formed wiring.
 func verifC14RoundTrip() {
-	sig := int(zzverif.Concrete(uint64(zzverif.Int("sig", 0, 2))))
+	sig := int(zzverif.Concrete(uint64(zzverif.Int("sig", 0, 4))))
 	in, out := verifSig(sig)
 	ng := int(zzverif.Concrete(uint64(zzverif.Int("gates", 1, 3))))
 	nw := 2 + ng
